@@ -13,7 +13,8 @@ PARTIAL = [
     "decoding of the body and header handling belong to C05/C12: the theorems start from the body text (str) handed to TreeBuilder.feed",
     "a data element written without end tag as the LAST child of an aggregate of the same name (<T><T>x</T>) is inherently ambiguous in SGML "
     "and excluded by ok_rendering (no OFX aggregate contains an element of its own name)",
-    "Serialize lemmas (html_is_render / unclosed_is_render / indent_only_adds_whitespace): see notes/status/C02.md for what is proved",
+    "Serialize lemmas are about the code-point text of the writers (html_text / unclosed_text); the UTF-8 layer (utf8_xcr / utf8_strict) is compared "
+    "byte for byte with the implementation by the correspondence run but not the subject of a theorem; unclosed_is_render needs element text escaped (repair C11-3)",
 ]
 MANIFEST = {
     "engine": "Sgml",
@@ -25,8 +26,8 @@ MANIFEST = {
             "documents, every string up to a length bound over the token alphabet and token sequences (scanner groups compared with re), and an "
             "independent reference reader written from the wire syntax is compared with the library's tree on every rendering.",
     "note": "Trusted: Coq kernel + vm_compute; the hand transcription Model/Sgml.v of regex+feed+C TreeBuilder (validated by correspondence only, "
-            "incl. exhaustive short strings against re.finditer); the whitespace table regenerated from the interpreter. Proved for the REPAIRED "
-            "source (fixes/C02-1, fixes/C08-1); obligation repo_is_repaired ties /repo to that variant.",
+            "incl. exhaustive short strings against re.finditer); the whitespace table regenerated from the interpreter. parse_render_faithful holds for every "
+            "configuration with the repaired regex (fix e7395eb), whatever the builder; obligation source_is_repaired_variant ties /repo's regex to that variant.",
 }
 
 TAGCH = "ABCDEFGHIJKLMNOPQRSTUVWXYZ0123456789._"
@@ -445,7 +446,7 @@ def deep_strings(rng, tier, deep):
     for l in range(1, n_tok + 1):
         for t in itertools.product(base, repeat=l):
             out.append("".join(t))
-    extra = 400000 if tier == "thorough" else (60000 if deep else 5000)
+    extra = 400000 if tier == "thorough" else (20000 if deep else 5000)
     for _ in range(extra):
         l = rng.randint(n_tok + 1, 9)
         out.append("".join(rng.choice(toks) for _ in range(l)))
